@@ -1,0 +1,489 @@
+//go:build verif
+
+// Verification hooks (build tag `verif` only): exported wrappers around the unexported table-file,
+// table-index, archive and journal range-index code.  No behaviour of dolt changes; with the tag off
+// this file is not compiled.  Names are prefixed VerifIdx… / VerifArc….
+package nbs
+
+import (
+	"bytes"
+	"context"
+	"fmt"
+	"io"
+	"os"
+	"path/filepath"
+	"sync"
+
+	"golang.org/x/sync/errgroup"
+
+	dherrors "github.com/dolthub/dolt/go/libraries/utils/errors"
+	"github.com/dolthub/dolt/go/store/chunks"
+	"github.com/dolthub/dolt/go/store/hash"
+)
+
+// ---------------------------------------------------------------- byte-backed tableReaderAt
+
+type verifBytesReaderAt struct{ b []byte }
+
+func (a verifBytesReaderAt) Close() error                  { return nil }
+func (a verifBytesReaderAt) clone() (tableReaderAt, error) { return a, nil }
+func (a verifBytesReaderAt) Reader(ctx context.Context) (io.ReadCloser, error) {
+	return io.NopCloser(bytes.NewReader(a.b)), nil
+}
+func (a verifBytesReaderAt) ReadAtWithStats(ctx context.Context, p []byte, off int64, stats *Stats) (int, error) {
+	return bytes.NewReader(a.b).ReadAt(p, off)
+}
+
+func verifRecover(err *error) {
+	if p := recover(); p != nil {
+		*err = fmt.Errorf("panic: %v", p)
+	}
+}
+
+// ---------------------------------------------------------------- writers
+
+// VerifIdxWriteTable drives tableWriter directly (addChunk in the given order, then finish): no
+// de-duplication.  Returns the table name and the file bytes.
+func VerifIdxWriteTable(addrs []hash.Hash, datas [][]byte) (name hash.Hash, file []byte, err error) {
+	defer verifRecover(&err)
+	var total uint64
+	for _, d := range datas {
+		total += uint64(len(d))
+	}
+	if len(addrs) == 0 {
+		// maxTableSize divides by the chunk count; an empty table is just index(0)+footer
+		buff := make([]byte, footerSize)
+		tw := newTableWriter(buff, nil)
+		n, nm, e := tw.finish()
+		return nm, buff[:n], e
+	}
+	buff := make([]byte, maxTableSize(uint64(len(addrs)), total)+uint64(len(addrs))*64)
+	tw := newTableWriter(buff, nil)
+	for i := range addrs {
+		tw.addChunk(addrs[i], datas[i])
+	}
+	n, nm, e := tw.finish()
+	return nm, buff[:n], e
+}
+
+// VerifIdxWriteMemTable adds the chunks to a memTable (which drops later duplicates) and writes it,
+// optionally filtering against |haver| exactly as a flush against existing tables does.
+func VerifIdxWriteMemTable(addrs []hash.Hash, datas [][]byte, haver *VerifIdxSource) (name hash.Hash, file []byte, count uint32, results []int, err error) {
+	defer verifRecover(&err)
+	var total uint64
+	for _, d := range datas {
+		total += uint64(len(d))
+	}
+	mt := newMemTable(total + 1)
+	for i := range addrs {
+		results = append(results, int(mt.addChunk(addrs[i], datas[i])))
+	}
+	var hv chunkReader
+	if haver != nil {
+		hv = haver.cs
+	}
+	var stats Stats
+	nm, data, _, cnt, _, e := mt.write(hv, nil, &stats)
+	return nm, data, cnt, results, e
+}
+
+// ---------------------------------------------------------------- sources
+
+// VerifIdxSource wraps a chunkSource (table file in memory / on disk, archive on disk).
+type VerifIdxSource struct {
+	cs  chunkSource
+	tr  *tableReader
+	idx *onHeapTableIndex
+	ar  *archiveReader
+}
+
+func verifWrap(cs chunkSource) *VerifIdxSource {
+	s := &VerifIdxSource{cs: cs}
+	switch v := cs.(type) {
+	case *chunkSourceAdapter:
+		s.tr = &v.tableReader
+	case chunkSourceAdapter:
+		s.tr = &v.tableReader
+	case *fileTableReader:
+		s.tr = &v.tableReader
+	case *archiveChunkSource:
+		s.ar = &v.aRdr
+	}
+	if s.tr != nil {
+		if oh, ok := s.tr.idx.(onHeapTableIndex); ok {
+			s.idx = &oh
+		}
+	}
+	return s
+}
+
+// VerifIdxOpenBytes opens a table file held in memory (index parsed by parseTableIndexByCopy).
+func VerifIdxOpenBytes(file []byte, name hash.Hash) (s *VerifIdxSource, err error) {
+	defer verifRecover(&err)
+	cs, e := newReaderFromIndexData(context.Background(), NewUnlimitedMemQuotaProvider(), file, name, verifBytesReaderAt{file}, fileBlockSize)
+	if e != nil {
+		return nil, e
+	}
+	return verifWrap(cs), nil
+}
+
+// VerifIdxOpenFile opens <dir>/<name> (table file) or <dir>/<name>.darc (archive), the way
+// fsTablePersister.Open does.
+func VerifIdxOpenFile(dir string, name hash.Hash, chunkCount uint32, mmapArchiveIndexes bool) (s *VerifIdxSource, err error) {
+	defer verifRecover(&err)
+	cs, e := newFileTableReader(context.Background(), dir, name, chunkCount, NewUnlimitedMemQuotaProvider(), mmapArchiveIndexes, noopRefCounter{}, &Stats{})
+	if e != nil {
+		return nil, e
+	}
+	return verifWrap(cs), nil
+}
+
+// VerifIdxConjoin runs fsTablePersister.ConjoinAll over on-disk sources in |dir|.
+func VerifIdxConjoin(dir string, srcs []*VerifIdxSource, mmapArchiveIndexes bool) (s *VerifIdxSource, err error) {
+	defer verifRecover(&err)
+	p := newFSTablePersister(dir, NewUnlimitedMemQuotaProvider(), mmapArchiveIndexes)
+	css := make(chunkSources, len(srcs))
+	for i, x := range srcs {
+		css[i] = x.cs
+	}
+	cs, _, e := p.ConjoinAll(context.Background(), dherrors.FatalBehaviorError, css, NewStats())
+	if e != nil {
+		return nil, e
+	}
+	return verifWrap(cs), nil
+}
+
+func (s *VerifIdxSource) Kind() string {
+	switch {
+	case s.ar != nil:
+		return "archive"
+	case s.tr != nil:
+		return "table"
+	}
+	return fmt.Sprintf("%T", s.cs)
+}
+func (s *VerifIdxSource) Close() error                     { return s.cs.close() }
+func (s *VerifIdxSource) Name() hash.Hash                  { return s.cs.hash() }
+func (s *VerifIdxSource) Suffix() string                   { return s.cs.suffix() }
+func (s *VerifIdxSource) Count() uint32                    { return s.cs.count() }
+func (s *VerifIdxSource) CurrentSize() uint64              { return s.cs.currentSize() }
+func (s *VerifIdxSource) UncompressedLen() (uint64, error) { return s.cs.uncompressedLen() }
+
+func (s *VerifIdxSource) Has(h hash.Hash) (ok bool, err error) {
+	defer verifRecover(&err)
+	ok, _, err = s.cs.has(h, nil)
+	return
+}
+
+// HasMany passes the records in exactly the given order with the given pre-set has flags
+// (prefix = h.Prefix(), order = position); returns the flags afterwards and `remaining`.
+func (s *VerifIdxSource) HasMany(addrs []hash.Hash, has []bool) (out []bool, remaining bool, err error) {
+	defer verifRecover(&err)
+	recs := make([]hasRecord, len(addrs))
+	for i := range addrs {
+		recs[i] = hasRecord{a: &addrs[i], prefix: addrs[i].Prefix(), order: i, has: has != nil && has[i]}
+	}
+	remaining, _, err = s.cs.hasMany(recs, nil)
+	out = make([]bool, len(recs))
+	for i := range recs {
+		out[i] = recs[i].has
+	}
+	return
+}
+
+func (s *VerifIdxSource) Get(h hash.Hash) (data []byte, err error) {
+	defer verifRecover(&err)
+	data, _, err = s.cs.get(context.Background(), h, nil, &Stats{})
+	return
+}
+
+type VerifIdxChunk struct {
+	H    hash.Hash
+	Data []byte
+	// Compressed is the stored form (snappy record incl. CRC, or zstd payload) when requested through getManyCompressed
+	Compressed []byte
+	Zstd       bool
+}
+
+func verifGetRecs(addrs []hash.Hash, found []bool) []getRecord {
+	recs := make([]getRecord, len(addrs))
+	for i := range addrs {
+		recs[i] = getRecord{a: &addrs[i], prefix: addrs[i].Prefix(), found: found != nil && found[i]}
+	}
+	return recs
+}
+
+// GetMany: records in exactly the given order with the given pre-set found flags.
+func (s *VerifIdxSource) GetMany(addrs []hash.Hash, found []bool) (got []VerifIdxChunk, out []bool, remaining bool, err error) {
+	defer verifRecover(&err)
+	recs := verifGetRecs(addrs, found)
+	var mu sync.Mutex
+	eg, ctx := errgroup.WithContext(context.Background())
+	remaining, _, err = s.cs.getMany(ctx, eg, recs, func(_ context.Context, c *chunks.Chunk) {
+		mu.Lock()
+		got = append(got, VerifIdxChunk{H: c.Hash(), Data: append([]byte(nil), c.Data()...)})
+		mu.Unlock()
+	}, nil, &Stats{})
+	if e2 := eg.Wait(); err == nil {
+		err = e2
+	}
+	out = make([]bool, len(recs))
+	for i := range recs {
+		out[i] = recs[i].found
+	}
+	return
+}
+
+func (s *VerifIdxSource) GetManyCompressed(addrs []hash.Hash, found []bool) (got []VerifIdxChunk, out []bool, remaining bool, err error) {
+	defer verifRecover(&err)
+	recs := verifGetRecs(addrs, found)
+	var mu sync.Mutex
+	var cbErr error
+	eg, ctx := errgroup.WithContext(context.Background())
+	remaining, _, err = s.cs.getManyCompressed(ctx, eg, recs, func(_ context.Context, tc ToChunker) {
+		mu.Lock()
+		defer mu.Unlock()
+		c, e := tc.ToChunk()
+		if e != nil {
+			cbErr = e
+			return
+		}
+		vc := VerifIdxChunk{H: tc.Hash(), Data: append([]byte(nil), c.Data()...)}
+		switch v := tc.(type) {
+		case CompressedChunk:
+			vc.Compressed = append([]byte(nil), v.FullCompressedChunk...)
+		case *ArchiveToChunker:
+			vc.Compressed = append([]byte(nil), v.chunkData...)
+			vc.Zstd = true
+		}
+		got = append(got, vc)
+	}, nil, &Stats{})
+	if e2 := eg.Wait(); err == nil {
+		err = e2
+	}
+	if err == nil {
+		err = cbErr
+	}
+	out = make([]bool, len(recs))
+	for i := range recs {
+		out[i] = recs[i].found
+	}
+	return
+}
+
+// GetManyToChunkers returns the ToChunker values themselves (to be fed to an ArchiveStreamWriter).
+func (s *VerifIdxSource) GetManyToChunkers(addrs []hash.Hash) (got []ToChunker, err error) {
+	defer verifRecover(&err)
+	recs := verifGetRecs(addrs, nil)
+	var mu sync.Mutex
+	eg, ctx := errgroup.WithContext(context.Background())
+	_, _, err = s.cs.getManyCompressed(ctx, eg, recs, func(_ context.Context, tc ToChunker) {
+		mu.Lock()
+		got = append(got, tc)
+		mu.Unlock()
+	}, nil, &Stats{})
+	if e2 := eg.Wait(); err == nil {
+		err = e2
+	}
+	return
+}
+
+func (s *VerifIdxSource) IterateAll() (got []VerifIdxChunk, err error) {
+	defer verifRecover(&err)
+	err = s.cs.iterateAllChunks(context.Background(), func(c chunks.Chunk) {
+		got = append(got, VerifIdxChunk{H: c.Hash(), Data: append([]byte(nil), c.Data()...)})
+	}, &Stats{})
+	return
+}
+
+type VerifIdxRange struct {
+	H      hash.Hash
+	Offset uint64
+	Length uint32
+}
+
+func (s *VerifIdxSource) GetRecordRanges(addrs []hash.Hash) (out []VerifIdxRange, err error) {
+	defer verifRecover(&err)
+	m, _, e := s.cs.getRecordRanges(context.Background(), dherrors.FatalBehaviorError, verifGetRecs(addrs, nil), nil)
+	if e != nil {
+		return nil, e
+	}
+	for h, r := range m {
+		out = append(out, VerifIdxRange{h, r.Offset, r.Length})
+	}
+	return
+}
+
+// ---- table-only
+
+func (s *VerifIdxSource) IsTable() bool { return s.idx != nil }
+
+func (s *VerifIdxSource) FindPrefix(p uint64) uint32 { return s.idx.findPrefix(p) }
+
+func (s *VerifIdxSource) LookupOrdinal(h hash.Hash) (ord uint32, err error) {
+	defer verifRecover(&err)
+	return s.idx.lookupOrdinal(&h)
+}
+
+func (s *VerifIdxSource) Lookup(h hash.Hash) (off uint64, length uint32, ok bool, err error) {
+	defer verifRecover(&err)
+	e, ok, err := s.idx.lookup(&h)
+	if ok {
+		off, length = e.Offset(), e.Length()
+	}
+	return
+}
+
+// FindOffsets: records in exactly the given order with the given pre-set found flags.
+func (s *VerifIdxSource) FindOffsets(addrs []hash.Hash, found []bool) (ors []VerifIdxRange, out []bool, remaining bool, err error) {
+	defer verifRecover(&err)
+	recs := verifGetRecs(addrs, found)
+	o, remaining, _, err := s.tr.findOffsets(recs, nil)
+	for _, r := range o {
+		ors = append(ors, VerifIdxRange{*r.a, r.offset, r.length})
+	}
+	out = make([]bool, len(recs))
+	for i := range recs {
+		out[i] = recs[i].found
+	}
+	return
+}
+
+func (s *VerifIdxSource) Prefixes() []uint64 { return append([]uint64(nil), s.tr.prefixes...) }
+
+func (s *VerifIdxSource) Ordinals() []uint32 {
+	o, cleanup, err := s.idx.ordinals(context.Background())
+	if err != nil {
+		return nil
+	}
+	defer cleanup()
+	return append([]uint32(nil), o...)
+}
+
+func (s *VerifIdxSource) IndexEntry(i uint32) (h hash.Hash, off uint64, length uint32, err error) {
+	defer verifRecover(&err)
+	e, err := s.idx.indexEntry(i, &h)
+	if err == nil {
+		off, length = e.Offset(), e.Length()
+	}
+	return
+}
+
+func (s *VerifIdxSource) TableFileSize() uint64 { return s.idx.tableFileSize() }
+
+// ---- archive-only
+
+func (s *VerifIdxSource) IsArchive() bool { return s.ar != nil }
+
+func (s *VerifIdxSource) ArcFindIndex(h hash.Hash) (i int, err error) {
+	defer verifRecover(&err)
+	return s.ar.findIndex(h), nil
+}
+
+func (s *VerifIdxSource) ArcSearchPrefix(p uint64) (i int32, err error) {
+	defer verifRecover(&err)
+	return s.ar.indexReader.searchPrefix(p), nil
+}
+
+type VerifArcFooter struct {
+	IndexSize, FileSize                     uint64
+	ByteSpanCount, ChunkCount, MetadataSize uint32
+	FormatVersion                           byte
+	DataSpanLen                             uint64
+}
+
+func (s *VerifIdxSource) ArcFooter() VerifArcFooter {
+	f := s.ar.footer
+	return VerifArcFooter{f.indexSize, f.fileSize, f.byteSpanCount, f.chunkCount, f.metadataSize, f.formatVersion, f.dataSpan().length}
+}
+
+// ArcEntry returns index row i: address, chunk ref and the data span.
+func (s *VerifIdxSource) ArcEntry(i uint32) (h hash.Hash, dict, data uint32, off, length uint64) {
+	h = reconstructHashFromPrefixAndSuffix(s.ar.indexReader.getPrefix(i), s.ar.indexReader.getSuffix(i))
+	dict, data = s.ar.getChunkRef(int(i))
+	sp := s.ar.getByteSpanByID(data)
+	return h, dict, data, sp.offset, sp.length
+}
+
+// VerifArcSearch is prollyBinSearch; a panic (division by zero / index out of range on an unsorted
+// slice) is reported in |panicked|.
+func VerifArcSearch(slice []uint64, target uint64) (idx int, panicked string) {
+	defer func() {
+		if p := recover(); p != nil {
+			panicked = fmt.Sprint(p)
+		}
+	}()
+	return prollyBinSearch(slice, target), ""
+}
+
+// VerifArcWriteSnappy drives archiveWriter directly: one snappy byte span + stageSnappyChunk per
+// chunk in the given order, then index/metadata/footer, flushed to <dir>/<name>.darc.  The error of
+// the first failing stage call is returned with its position (duplicates → ErrDuplicateChunkWritten).
+func VerifArcWriteSnappy(dir string, addrs []hash.Hash, datas [][]byte) (name hash.Hash, stageErrAt int, err error) {
+	defer verifRecover(&err)
+	stageErrAt = -1
+	aw, e := newArchiveWriter(dir)
+	if e != nil {
+		return hash.Hash{}, -1, e
+	}
+	cleanup := func() {
+		aw.output.finish()
+		if aw.path != "" {
+			os.Remove(aw.path)
+		}
+	}
+	for i := range addrs {
+		cc := ChunkToCompressedChunk(chunks.NewChunkWithHash(addrs[i], datas[i]))
+		id, e := aw.writeByteSpan(cc.FullCompressedChunk)
+		if e != nil {
+			cleanup()
+			return hash.Hash{}, i, e
+		}
+		if e = aw.stageSnappyChunk(addrs[i], id); e != nil {
+			if stageErrAt < 0 {
+				stageErrAt = i
+				err = e
+			}
+		}
+	}
+	if err != nil {
+		cleanup()
+		return hash.Hash{}, stageErrAt, err
+	}
+	if e = aw.finalizeByteSpans(); e != nil {
+		cleanup()
+		return hash.Hash{}, -1, e
+	}
+	if e = aw.indexFinalize(archiveOrigin{}); e != nil {
+		cleanup()
+		return hash.Hash{}, -1, e
+	}
+	nm, e := aw.getName()
+	if e != nil {
+		cleanup()
+		return hash.Hash{}, -1, e
+	}
+	if e = aw.flushToFile(filepath.Join(dir, nm.String()+ArchiveFileSuffix)); e != nil {
+		return hash.Hash{}, -1, e
+	}
+	return nm, -1, nil
+}
+
+// ---------------------------------------------------------------- journal range index
+
+// VerifIdxRangeIndex wraps the journal's in-memory rangeIndex (novel map keyed by the full address,
+// cached map keyed by the first 16 bytes).
+type VerifIdxRangeIndex struct{ ri rangeIndex }
+
+func VerifIdxNewRangeIndex() *VerifIdxRangeIndex { return &VerifIdxRangeIndex{newRangeIndex()} }
+
+func (r *VerifIdxRangeIndex) Put(h hash.Hash, off uint64, length uint32) {
+	r.ri.put(h, Range{Offset: off, Length: length})
+}
+func (r *VerifIdxRangeIndex) Get(h hash.Hash) (off uint64, length uint32, ok bool) {
+	rng, ok := r.ri.get(h)
+	return rng.Offset, rng.Length, ok
+}
+func (r *VerifIdxRangeIndex) Flatten()        { r.ri = r.ri.flatten(context.Background()) }
+func (r *VerifIdxRangeIndex) Count() uint32   { return r.ri.count() }
+func (r *VerifIdxRangeIndex) NovelCount() int { return r.ri.novelCount() }
